@@ -115,6 +115,8 @@ def cmd_run(pid, tier, seed):
             order.sort(key=lambda i: -prev.get((jobs[i].template, json.dumps(_short(jobs[i].cfg), sort_keys=True, default=str)), 1e9))
         except Exception:
             pass
+        if early:
+            order.reverse()      # (development aid: the small hand-picked jobs first)
         for r in pool.imap_unordered(_run_job, [(i, pid, tier, seed, second) for i in order]):
             results.append(r)
             if early and r['violations']:
